@@ -173,7 +173,7 @@ class InjectionTracker:
         new_id = effective_id
         for packet_id in reversed(self.injections):
             if packet_id > new_id:
-                break
+                continue
             new_id -= 1
         new_id -= self._injection_base
         if effective_id != new_id:
